@@ -357,6 +357,27 @@ func init() {
 		}
 		return SliceV{Obj: b.Obj, Off: BvAdd(b.Off, off), Len: BvSub(b.Len, off), Cap: BvSub(b.Cap, off), Nil: False()}
 	}
+	// (*bytes.Buffer).Next(n): the next n unread octets (all that are left if fewer), consumed; a view
+	// of the buffer's own storage.
+	extModels["(*bytes.Buffer).Next"] = func(x *Exec, fr *Frame, args []Value, pos token.Pos) Value {
+		p, sv := x.bufferOf(args[0])
+		buf, off := asSlice(sv.F[0]), term(sv.F[1])
+		n := Resize(term(args[1]), 64, true)
+		rem := BvSub(buf.Len, off)
+		if piece, next, ok := x.ropeRead(buf, off, n); ok {
+			x.setBuffer(p, buf, next)
+			return piece
+		}
+		take := n
+		if !x.decide(BvUle(n, rem), "whether Buffer.Next finds enough octets") {
+			take = rem
+		}
+		if buf.Obj == nil {
+			return SliceV{Off: bv64(0), Len: bv64(0), Cap: bv64(0), Nil: False()}
+		}
+		x.setBuffer(p, buf, BvAdd(off, take))
+		return SliceV{Obj: buf.Obj, Off: BvAdd(buf.Off, off), Len: take, Cap: take, Nil: False()}
+	}
 	extModels["(*bytes.Buffer).Write"] = func(x *Exec, fr *Frame, args []Value, pos token.Pos) Value {
 		p, sv := x.bufferOf(args[0])
 		d := asSlice(args[1])
